@@ -486,12 +486,18 @@ RDS = [None, '65000:1']
 ANCHOR6 = [fs.DEST, ['2001:db8::', 32, 0]]
 
 
-def _cls(ctype: int, afi: int) -> str:
+def _cls(ctype: int, afi: int, named: bool = False) -> str:
+    """Signature class of a single-component case: coarse (value width class), so that one root cause
+    gives a handful of signatures; the keyword is in the witness text."""
     kw = fs.KEYWORD[afi][ctype]
+    if named:
+        if afi == 2 and ctype in (fs.ICMP_TYPE, fs.ICMP_CODE):
+            return 'icmp-name-in-ipv6-flow'
+        return f'{kw}-name'
     if ctype in fs.NUMERIC:
-        return f'numeric{max(fs.WIDTHS[ctype])}:{kw}'
+        return f'numeric{max(fs.WIDTHS[ctype])}'
     if ctype in fs.BITMASK:
-        return f'bitmask:{kw}'
+        return 'bitmask'
     return 'prefix4' if afi == 1 else 'prefix6'
 
 
@@ -638,7 +644,7 @@ def cases(block, tier: str):
                                 continue
                             if style.get('names') and fs.value_text(ctype, afi, val, True) == fs.value_text(ctype, afi, val, False):
                                 continue
-                            yield _enc(rule, path, cls if not style.get('names') else cls + ':named', style)
+                            yield _enc(rule, path, cls if not style.get('names') else _cls(ctype, afi, True), style)
             if fs.name_table(ctype, afi) and numeric:
                 # every name of the vocabulary, once
                 for nm, val in sorted(fs.name_table(ctype, afi).items()):
@@ -646,7 +652,7 @@ def cases(block, tier: str):
                         continue
                     rule = {'afi': afi, 'rd': None, 'comps': _anchored(afi, ctype, [[0, '=', val]]), 'actions': [['discard']]}
                     for path in PATHS:
-                        yield _enc(rule, path, cls + ':named', {'bracket': 'min', 'names': True})
+                        yield _enc(rule, path, _cls(ctype, afi, True), {'bracket': 'min', 'names': True})
             return
         if length == 2:
             vals = valid + ([beyond] if beyond is not None else [])
@@ -738,7 +744,7 @@ def cases(block, tier: str):
                         else:
                             paths = PATHS
                         for path in paths:
-                            yield _enc(rule, path, f'multi{k}')
+                            yield _enc(rule, path, 'multi')
         return
     if name == 'rd':
         (_, afi) = block
